@@ -349,7 +349,8 @@ class Node(ModelElement):
         node_id = self.topo.graph_model.find_component_by_name(parent_node_id=self.node_id,
                                                                component_name=name)
 
-        for i in self.components[name].interface_list:
+        # (sub-interfaces are connected to services on their own)
+        for i in [x for top in self.components[name].interface_list for x in (top,) + tuple(top.interface_list)]:
             # disconnect if connected to a network service
             peers = i.get_peers(itype=InterfaceType.ServicePort)
             if peers:
